@@ -42,7 +42,7 @@ REACH = {
         "error_while_pending", "error_while_idle", "queued_send_failed", "send_after_failure_raised",
         "recovery_after_rstack", "immediate_retry_on_nak", "timeout_retry", "piggyback_ack",
         "rstack_while_pending", "three_sends_queued", "timeout_at_floor", "old_acknum_delivered",
-        "send_between_host_rst_and_rstack_on_failed_link"]
+        "send_between_host_rst_and_rstack_on_failed_link", "caller_cancelled_in_flight", "error_after_host_side_failure"]
     for t in ("quick", "thorough")
 }
 SHARD_TIMEOUT = {"quick": 600, "thorough": 3000}
@@ -180,6 +180,10 @@ def run_case(case, acc: Acc | None = None):
             except ValueError:
                 return
             attempts[idx] = attempts.get(idx, 0) + 1
+            for (ci, catt, cdelay) in case.get("cancel", []):
+                if ci == idx and catt == attempts[idx] and ci < len(task_box):
+                    # the caller of this send is cancelled while its frame is in flight
+                    loop.io_at(clock() + cdelay, task_box[ci].cancel)
             # decide in the next loop iteration, when the host has armed its timer
             loop._harness += 1
             try:
@@ -187,6 +191,7 @@ def run_case(case, acc: Acc | None = None):
             finally:
                 loop._harness -= 1
 
+        task_box = []
         up = Upper(trace, clock)
         proto = ash.AshProtocol(up)
         tr = Transport(trace, clock, on_frame)
@@ -197,6 +202,7 @@ def run_case(case, acc: Acc | None = None):
             try:
                 await proto.send_data(marker(i))
             except asyncio.CancelledError:
+                trace.append(("cancelled", clock(), i))
                 raise
             except BaseException as e:  # noqa: BLE001
                 trace.append(("exc", clock(), i, type(e).__name__))
@@ -209,12 +215,18 @@ def run_case(case, acc: Acc | None = None):
             deliver("err", case["error_while_idle"])
             await vloop.settle(loop)
         tasks = [asyncio.ensure_future(do_send(i)) for i in range(first)]
+        task_box.extend(tasks)
         if tasks:
             await asyncio.wait(tasks)
         for i in range(first, n):
             await do_send(i)
         await vloop.settle(loop, 4)
         nxt = n
+        if case.get("error_after"):
+            # an ERROR frame after everything else (e.g. after the host gave up on its own): it is a
+            # failure indication of its own and must be reported upward with its code
+            deliver("err", case["error_after"])
+            await vloop.settle(loop, 4)
         if case.get("followup"):
             # a send while (possibly) failed, then RSTACK, then a recovery send
             scripts[nxt] = [("ack", "0")]
@@ -276,6 +288,11 @@ def check_trace(trace, max_attempts: int):
             s = S(ev[2])
             s["end"] = t
             s["outcome"] = k if k == "ret" else ev[3]
+        elif k == "cancelled":
+            # the caller went away; the frame itself is still the link's business
+            s = S(ev[2])
+            s["end"] = t
+            s["outcome"] = "cancelled"
         elif k == "tx":
             fr = ev[2]
             if fr is None:
@@ -339,7 +356,7 @@ def check_trace(trace, max_attempts: int):
             kind, arg = ev[2], ev[3]
             if kind in ("ack", "nak", "data"):
                 for s in sends.values():
-                    if s["att"] and s["end"] is None:
+                    if s["att"] and (s["end"] is None or s["outcome"] == "cancelled"):
                         if arg == (s["frm"] + 1) % 8 and t >= s["att"][0] - EPS:
                             s["cover"].append(t)
                         if kind == "nak":
@@ -348,7 +365,7 @@ def check_trace(trace, max_attempts: int):
                 pending_reset_expect.append((t, arg, "ERROR"))
                 failed_since = t
                 for s in sends.values():
-                    if s["call"] is not None and s["end"] is None:
+                    if s["call"] is not None and (s["end"] is None or (s["outcome"] == "cancelled" and not s.get("dead") and not s["cover"])):
                         s["errs"].append(t)
                         s["dead"] = True
                 facts["error_delivered"] = True
@@ -357,7 +374,7 @@ def check_trace(trace, max_attempts: int):
                 failed_since = None
                 rstack_since_first = True
                 for s in sends.values():
-                    if s["call"] is not None and s["end"] is None:
+                    if s["call"] is not None and (s["end"] is None or (s["outcome"] == "cancelled" and not s.get("dead") and not s["cover"])):
                         s["rstacks"].append(t)
         elif k == "up_reset":
             code = ev[2]
@@ -368,7 +385,7 @@ def check_trace(trace, max_attempts: int):
                 spontaneous.append((t, code))
                 failed_since = t if failed_since is None else failed_since
                 for s in sends.values():
-                    if s["att"] and (s["end"] is None):
+                    if s["att"] and (s["end"] is None or (s["outcome"] == "cancelled" and not s["cover"])):
                         s["dead"] = True
     for p in pending_reset_expect:
         bad.append((f"C05/notify/{p[2]}-not-reported", f"{p[2]}(0x{p[1]:02x}) delivered at {p[0]:.3f} was not reported upward"))
@@ -394,6 +411,15 @@ def check_trace(trace, max_attempts: int):
                 if n == max_attempts:
                     facts["completed_on_last_attempt"] = True
         else:
+            if s["outcome"] == "cancelled":
+                facts["caller_cancelled_in_flight"] = True
+                if s["cover"]:
+                    # nobody is waiting any more; the frame was acknowledged at some point - but if that
+                    # happened in the very instant a timeout expired the host may have gone on retrying
+                    # (raising although acknowledged is allowed), so a full budget is "maybe exhausted"
+                    if n >= max_attempts:
+                        ambiguous += 1
+                    continue
             by_error = bool(s["errs"]) or s.get("failed_at_call")
             if n >= max_attempts and not s["errs"]:
                 exhausted += 1
@@ -402,6 +428,8 @@ def check_trace(trace, max_attempts: int):
             elif n >= max_attempts and any(abs(e - s["end"]) < EPS for e in s["errs"]) and \
                     s["end"] - s["att"][-1] >= T_MIN - EPS:
                 ambiguous += 1
+            elif s["outcome"] == "cancelled":
+                facts["caller_cancelled_in_flight"] = True
             elif not by_error and not s["rstacks"]:
                 # raised within the budget, with the link healthy
                 prior_fail = any(sp[0] <= s["end"] + EPS for sp in spontaneous)
@@ -512,6 +540,10 @@ def judge_case(acc: Acc, case):
         if e[0] == "ret" and seen_rstack_after_fail:
             acc.hit("recovery_after_rstack")
             break
+    if facts.get("caller_cancelled_in_flight"):
+        acc.hit("caller_cancelled_in_flight")
+    if case.get("error_after") is not None and any(e[0] == "up_reset" and e[2] == REASON_EXHAUSTED for e in trace):
+        acc.hit("error_after_host_side_failure")
     failed_before_rst = False
     for e in trace:
         if e[0] == "up_reset" or (e[0] == "rx" and e[2] == "err"):
@@ -581,6 +613,16 @@ def gen_cases(tier, seed):
             cases.append({"sends": [s, [("ack", "0")]], "concurrent": 1, "followup": False})
     for code in (0x51, 0x80):
         cases.append({"sends": [[("ack", "0")]], "error_while_idle": code, "followup": True})
+    # an ERROR frame arriving after the host gave up on its own (timeouts / NAKs / mixed), and on a healthy link
+    for code in (0x80, 0x52, 0x00, 0xFF, 0x51):
+        for sc in ([("sil",)] * maxa, [("nak", "0")] * maxa, [("nak", "0"), ("sil",)] * maxa, [("ack", "0")]):
+            cases.append({"sends": [sc[:maxa]], "error_after": code, "followup": True})
+    # the caller is cancelled while its frame is in flight; another send follows
+    for att in (1, 2, 3):
+        for delay in (0.0, 0.05, 0.5, 1.0):
+            for sc in ([("sil",), ("sil",), ("ack", "0")], [("ack", "d")], [("nak", "d"), ("ack", "d")], [("sil",)] * maxa):
+                cases.append({"sends": [sc, [("ack", "0")], [("ack", "d")]], "concurrent": 3, "cancel": [[0, att, delay]], "followup": False})
+                cases.append({"sends": [[("ack", "0")], sc, [("ack", "d")]], "concurrent": 3, "cancel": [[1, att, delay]], "followup": True})
     # long runs of promptly acknowledged sends drive the adaptive timeout to its floor; the
     # next silence must still be waited out for at least the protocol minimum
     for k in (12, 20, 30):
@@ -595,8 +637,13 @@ def gen_cases(tier, seed):
             if k < maxa:
                 sc.append(rnd.choice(TERM))
             sends.append(sc)
-        cases.append({"sends": sends, "concurrent": rnd.choice([n, n, max(1, n - 1)]),
-                      "followup": rnd.choice([False, False, True, "rst"])})
+        c_ = {"sends": sends, "concurrent": rnd.choice([n, n, max(1, n - 1)]),
+              "followup": rnd.choice([False, False, True, "rst"])}
+        if rnd.random() < 0.3:
+            c_["cancel"] = [[rnd.randrange(c_["concurrent"]), rnd.choice([1, 1, 2, 3]), rnd.choice([0.0, 0.05, 0.5, 1.0])]]
+        if rnd.random() < 0.15:
+            c_["error_after"] = rnd.choice([0x51, 0x52, 0x80, 0x00, 0xFF])
+        cases.append(c_)
     return cases
 
 
